@@ -76,9 +76,8 @@ def run(ctx: Ctx) -> None:
             inst.attrs["default_factory"] = None
             try:
                 outs = I2.explore(f"{CI}.{m}", lambda: (inst, [keyv] + extra, {}))
-            except AnalysisError as ex:
-                ctx.finding("K1", f"{m}({label})", repo.loc("ordereddict", meths[m]), f"cannot be evaluated: {ex}")
-                continue
+            except AnalysisError:
+                raise
             want = keyv.lower() if label == "str" else keyv
             if label == "nonstr" and all(o.kind == "raise" for o in outs):
                 ctx.ok("K1", f"{m}({label})", repo.loc("ordereddict", meths[m]), f"raises {outs[0].exc} for a non-string key (outside C17, which speaks about string keys)", nontrivial=False)
